@@ -34,7 +34,7 @@ const (
 )
 
 type policySpec struct {
-	Kind  string // "default" (the server's own default policy) or "table"
+	Kind  string // "default" (the server's own default policy), "table" (generated function on Server.MsgAcceptFunc) or "global" (the same kind of function installed through the package variable dns.DefaultMsgAcceptFunc, Server field nil)
 	Table []int  // actions 0..3
 	Salt  int
 }
@@ -72,8 +72,10 @@ func refDefault(h hdr) int {
 	return actAccept
 }
 
+func (p policySpec) custom() bool { return p.Kind == "table" || p.Kind == "global" }
+
 func (p policySpec) act(h hdr) int {
-	if p.Kind != "table" || len(p.Table) == 0 {
+	if !p.custom() || len(p.Table) == 0 {
 		return refDefault(h)
 	}
 	m := func(v uint16, max int) int {
@@ -133,13 +135,20 @@ func (o *observer) configure(srv *dns.Server, p policySpec) {
 		o.invalid = append(o.invalid, c)
 		o.mu.Unlock()
 	}
-	if p.Kind == "table" {
-		srv.MsgAcceptFunc = func(dh dns.Header) dns.MsgAcceptAction {
+	if p.custom() {
+		f := func(dh dns.Header) dns.MsgAcceptAction {
 			h := hdr{dh.Id, dh.Bits, dh.Qdcount, dh.Ancount, dh.Nscount, dh.Arcount}
 			o.mu.Lock()
 			o.policy = append(o.policy, h)
 			o.mu.Unlock()
 			return dns.MsgAcceptAction(p.act(h))
+		}
+		if p.Kind == "global" {
+			// the documented way to change the policy of every server that has none of its own;
+			// checkAdmit restores the variable when the case is over (cases run one at a time)
+			dns.DefaultMsgAcceptFunc = f
+		} else {
+			srv.MsgAcceptFunc = f
 		}
 	}
 }
@@ -638,6 +647,8 @@ func checkAdmit(c admitCase) error {
 		}
 	}
 
+	savedPolicy := dns.DefaultMsgAcceptFunc
+	defer func() { dns.DefaultMsgAcceptFunc = savedPolicy }()
 	var out outcome
 	var err error
 	switch c.Transport {
@@ -675,7 +686,7 @@ func checkAdmit(c admitCase) error {
 		}
 	}
 	// the policy function saw exactly the headers of the packets that pass the 12-octet gate
-	if c.Policy.Kind == "table" && !real {
+	if c.Policy.custom() && !real {
 		var got, want []string
 		for _, h := range o.policy {
 			got = append(got, fmt.Sprint(h))
@@ -942,7 +953,10 @@ func genPacket(t *rapid.T) []byte {
 }
 
 func genPolicy(t *rapid.T) policySpec {
-	if rapid.IntRange(0, 2).Draw(t, "custom") == 0 {
+	switch rapid.IntRange(0, 5).Draw(t, "custom") {
+	case 0:
+		return policySpec{Kind: "global", Table: rapid.SliceOfN(rapid.IntRange(0, 3), 1, 24).Draw(t, "table"), Salt: rapid.IntRange(0, 1000).Draw(t, "salt")}
+	case 1, 2:
 		return policySpec{Kind: "table", Table: rapid.SliceOfN(rapid.IntRange(0, 3), 1, 24).Draw(t, "table"), Salt: rapid.IntRange(0, 1000).Draw(t, "salt")}
 	}
 	return policySpec{Kind: "default"}
@@ -969,7 +983,7 @@ func genAdmit(t *rapid.T) admitCase {
 // enumerations
 
 func eachHeader(emit func(admitCase)) {
-	pols := []policySpec{{Kind: "default"}}
+	pols := []policySpec{{Kind: "default"}, {Kind: "global", Table: []int{0, 3, 1, 2, 0, 0, 2, 3, 1, 1, 0}, Salt: 3}}
 	if pbt.Thorough() {
 		pols = append(pols, policySpec{Kind: "table", Table: []int{0, 1, 2, 3, 0, 0, 3, 2, 1}, Salt: 5})
 	}
